@@ -44,7 +44,19 @@ def main(spec):
         else:
             cols["patch"] = np.asarray(spec["columns"]["patch"], dtype=np.int64)
             kw["patch_name"] = "patch"
-        Catalog.from_dataframe(spec["cache"], pd.DataFrame(cols), **kw)
+        if spec.get("buffersize") is not None:
+            # the lower-level entry point with a bounded writer buffer: records stay in memory until a buffer fills up
+            # or the writers are closed at finalisation
+            from yaw.catalog.catalog import write_patches
+            from yaw.catalog.readers import DataFrameReader
+            reader = DataFrameReader(pd.DataFrame(cols), ra_name="ra", dec_name="dec", degrees=False,
+                                     weight_name=kw.get("weight_name"), redshift_name=kw.get("redshift_name"),
+                                     patch_name=kw.get("patch_name"), chunksize=spec["chunksize"])
+            write_patches(spec["cache"], reader, kw.get("patch_centers"), overwrite=kw["overwrite"], progress=False,
+                          max_workers=spec.get("workers", 1), buffersize=spec["buffersize"])
+            Catalog(spec["cache"])          # computes the metadata like from_dataframe does
+        else:
+            Catalog.from_dataframe(spec["cache"], pd.DataFrame(cols), **kw)
     elif kind == "open":          # computes missing metadata
         from yaw import Catalog
         Catalog(spec["cache"])
